@@ -3,6 +3,7 @@
 Parts: "files" (a File-producing job re-run through the protocol while its output files are lost or altered),
 "single" (one job through get_oneshot_command -> oneshot -> parse_job_result/parse_job_error),
 "array" (write_array_job_scratch_files + oneshot --array-job with the index environment variable),
+"grouping" (which jobs the job arrayer puts into one array job),
 "names" (get_batch_job_name / get_hash_from_job_name round trip and job reuniting through
 AWSBatchExecutor.gather_inflight_jobs / _submit against a faked Batch job listing).
 """
@@ -40,7 +41,10 @@ RULE = (
     "under several prefixes, array jobs with eval-hash files and shuffled in-flight child subsets, "
     "finished jobs, unrelated names, jobs that vanished from describe_jobs) is reunited through the real "
     "AWSBatchExecutor: every entry of the inflight map and every job placed in pending_batch_jobs by "
-    "_submit must point at an in-flight remote job created for that same eval hash. files: a task that "
+    "_submit must point at an in-flight remote job created for that same eval hash. grouping: jobs of "
+    "tasks with equal short names in different namespaces and equal/different options: two jobs get "
+    "the same JobDescription (array grouping key) exactly when they call the same task (full name) with "
+    "the same options. files: a task that "
     "writes 1-3 files and returns them as a bare File / list / dict / nested tuple-list-dict / plain paths "
     "is run 2-4 times through the protocol in the same scratch directory (same eval hash: a retry or "
     "resubmission); between attempts a produced file is deleted, rewritten with other content, or left "
@@ -139,6 +143,16 @@ def array_cases(draw):
                          min_size=1, max_size=n + 1))
     return {"part": "array", "task": which, "elems": elems, "hashes": hashes, "array_id": draw(st.integers(0, 9)),
             "runs": [list(r) for r in runs], "scratch": draw(scratch_names), "trailing_slash": draw(st.booleans())}
+
+
+@st.composite
+def grouping_cases(draw):
+    """Jobs of real Task objects (same short names in different namespaces, equal or different
+    options) as the job arrayer groups them into array jobs."""
+    jobs = draw(st.lists(st.tuples(st.sampled_from(["alpha", "beta", None]), st.sampled_from(["process", "process", "other"]),
+                                   st.sampled_from([{}, {}, {"memory": 2}, {"memory": 3}, {"vcpus": 1, "memory": 2}])),
+                         min_size=2, max_size=6))
+    return {"part": "grouping", "jobs": [list(j) for j in jobs]}
 
 
 prefix_st = st.one_of(
@@ -340,6 +354,44 @@ def single_oracle(ctx: Ctx, case: dict) -> None:
                             f"oneshot returned {ran[1]!r}, local call returns {expected[1]!r}", case)
     finally:
         shutil.rmtree(root, ignore_errors=True)
+
+
+# ------------------------------------------------------------------------------- part "grouping"
+def grouping_oracle(ctx: Ctx, case: dict) -> None:
+    """An array job runs ONE oneshot command (the first job's task) for all its elements, so two jobs
+    may share an array only if they call the same task (full name) with the same options."""
+    from redun import Task
+    from redun.job_array import JobDescription
+    from redun.scheduler import Job
+
+    tasks = {}
+
+    def task_for(ns, name):
+        if (ns, name) not in tasks:
+            def f(x):
+                return x
+            f.__name__ = name
+            tasks[(ns, name)] = Task(f, name=name, namespace=ns or "", source=f"def {name}(x): return x  # {ns}")
+        return tasks[(ns, name)]
+
+    descrs = []
+    for ns, name, opts in case["jobs"]:
+        t = task_for(ns, name)
+        t2 = t.options(**opts) if opts else t
+        job = Job(t, t2(1))
+        job.eval_options = dict(opts)
+        with ctx.no_raise("JobDescription", case):
+            descrs.append((JobDescription(job), (t.fullname, tuple(sorted(opts.items())))))
+    for i, (d1, m1) in enumerate(descrs):
+        for d2, m2 in descrs[i + 1:]:
+            same = d1 == d2 and hash(d1) == hash(d2)
+            if same and m1 != m2:
+                what = "different tasks" if m1[0] != m2[0] else "different options"
+                raise Violation(f"grouping:{'tasks' if m1[0] != m2[0] else 'options'}-share-an-array",
+                                f"jobs of {m1} and {m2} ({what}) get the same array grouping key {d1!r}: they would be "
+                                f"submitted as one array job, whose elements all run the first job's task", case)
+            if not same and m1 == m2:
+                raise Violation("grouping:same-call-split", f"two jobs of {m1} get different grouping keys {d1!r} / {d2!r}", case)
 
 
 # ------------------------------------------------------------------------------- part "files"
@@ -618,6 +670,10 @@ def _raises(call) -> bool:
 
 def labels(case: dict):
     part = case["part"]
+    if part == "grouping":
+        names = {(ns, n) for ns, n, _ in case["jobs"]}
+        clash = len({n for _, n in names}) < len(names)
+        return [f"grouping:same-short-name={clash}"], clash
     if part == "files":
         pert = any(p is not None for p in case["attempts"])
         return [f"files:shape={case['shape']}", f"files:perturbed={pert}"], (pert and case["shape"] not in ("bare", "paths"))
@@ -647,7 +703,8 @@ def run_case(ctx: Ctx, case: dict) -> None:
 
 
 def oracle(ctx: Ctx, case: dict) -> None:
-    {"single": single_oracle, "array": array_oracle, "names": names_oracle, "files": files_oracle}[case["part"]](ctx, case)
+    {"single": single_oracle, "array": array_oracle, "names": names_oracle, "files": files_oracle,
+     "grouping": grouping_oracle}[case["part"]](ctx, case)
 
 
 def check(ctx: Ctx) -> None:
@@ -655,6 +712,7 @@ def check(ctx: Ctx) -> None:
     ctx.given(array_cases(), lambda c: run_case(ctx, c), ctx.n(300, 24000))
     ctx.given(name_cases(), lambda c: run_case(ctx, c), ctx.n(300, 24000))
     ctx.given(file_cases(), lambda c: run_case(ctx, c), ctx.n(150, 12000))
+    ctx.given(grouping_cases(), lambda c: run_case(ctx, c), ctx.n(200, 12000))
 
 
 def replay(ctx: Ctx, case: dict) -> None:
